@@ -320,10 +320,12 @@ def run(ctx):
             ctx.count('env_limit_trips')
             trip(ctx, case)
     # files larger than 1 MiB that are still within the limit (chunked reading / encoding must not lose anything)
-    for size in ([MIB + 1, 2 * MIB + 12345] if ctx.quick else [MIB + 1, MIB + 3, 2 * MIB, 2 * MIB + 12345, 3 * MIB + 1, 5 * MIB - 1]):
+    # just above every power of two from 4 KiB to 16 MiB (a chunk size somebody might pick), plus odd sizes
+    ladder = [2 ** k + 1 for k in ((13, 16, 20, 22) if ctx.quick else range(12, 25))]
+    for size in (ladder + [2 * MIB + 12345] if ctx.quick else ladder + [MIB + 3, 2 * MIB, 2 * MIB + 12345, 3 * MIB + 1, 5 * MIB - 1]):
         idx += 1
         if ctx.mine(idx):
-            case = dict(shapes(rng), seed=base + idx, size=size, limit_mb=rng.choice([8, 500]), boundary='large %d' % size)
+            case = dict(shapes(rng), seed=base + idx, size=size, limit_mb=rng.choice([20, 500]), boundary='large %d' % size)
             ctx.case(case)
             ctx.count('large_file_trips')
             trip(ctx, case)
